@@ -361,6 +361,29 @@ def F20():
         os.remove(p); os.rmdir(d)
 
 
+def F7():
+    """C16: ImageMesh.equals compares the spacing with the coordinate-scaled absolute tolerance"""
+    from fieldcompare.mesh import ImageMesh, Mesh
+    a = ImageMesh((2, 0, 0), (1000.0, 0.0, 0.0), (1.0, 1.0, 1.0))
+    b = ImageMesh((2, 0, 0), (1000.0, 0.0, 0.0), (1.000009, 1.0, 1.0))
+    structured = bool(a.equals(b))
+    ct = list(a.cell_types)[0]
+    ea = Mesh(a.points, [(ct, a.connectivity(ct))])
+    eb = Mesh(b.points, [(ct, b.connectivity(ct))])
+    explicit = bool(ea.equals(eb))
+    return structured and not explicit, f"image equals={structured}, explicit equals={explicit}"
+
+
+def F21():
+    """C16: structured short-cuts / PermutedMesh.equals use the receiver's tolerances only -> asymmetric"""
+    from fieldcompare.mesh import RectilinearMesh
+    a = RectilinearMesh((1, 0, 0), ([0.0, 4.0], [0.0], [0.0]))
+    a.set_tolerances(abs_tol=1.0)
+    b = RectilinearMesh((1, 0, 0), ([0.5, 4.0], [0.0], [0.0]))
+    ab, ba = bool(a.equals(b)), bool(b.equals(a))
+    return ab != ba, f"a.equals(b)={ab}, b.equals(a)={ba}"
+
+
 ALL = {n: f for n, f in globals().items() if n.startswith("F") and n[1:].isdigit() and callable(f)}
 
 if __name__ == "__main__":
